@@ -132,6 +132,27 @@ func genC10(g *Gen) {
 			return
 		}
 	})
+	// rationals far outside the range and right at its ends (the estimate of the quotient's size from bit lengths decides
+	// early; it must not decide wrongly), both signs
+	rk := []int{6100, 6111, 6140, 6144, 6145, 6146, 6147, 6150, 6176, 6177, 6178, 6180, 6200, 6210, 6211, 6212, 6213, 6215, 6216, 6220, 6300, 7000, 20000}
+	g.gridRun(len(rk)*4, 0.06, func(i int) {
+		k := rk[i/4]
+		small := big.NewInt(int64(1 + g.r.Intn(999)))
+		if i%2 == 1 {
+			small = randDigits(g.r, 20+g.r.Intn(30))
+		}
+		big10 := new(big.Int).Add(pow10(k), big.NewInt(int64(g.r.Intn(7))))
+		num, den := small, big10
+		if (i/2)%2 == 1 {
+			num, den = big10, small
+		}
+		if g.r.Intn(2) == 0 {
+			num = new(big.Int).Neg(num)
+		}
+		g.setMode(g.r.Intn(6))
+		g.emit(Ev{"op": "FromRat", "num": bigN(num), "den": bigN(den)})
+		g.setMode(0)
+	})
 	// integers far beyond the range, up to 140 000 digits (the conversion walks them in 18-digit steps; every counter
 	// that grows with the length has to survive): all must come back as the infinity of their sign
 	var hugeDigits []int
@@ -358,6 +379,35 @@ func genC09(g *Gen) {
 		e := Ev{"op": "Float", "rprec": []int{-1, 24, 53}[g.r.Intn(3)]}
 		e.setDec("x", x)
 		g.emit(e)
+	})
+	// NaN of both signs and of several payloads through both float constructors
+	g.gridRun(4, 0.01, func(i int) {
+		bits := []uint64{0x7ff8000000000000, 0xfff8000000000001, 0x7ff0000000000001, 0xffffffffffffffff}[i]
+		g.emit(Ev{"op": "FromFloat64", "f": f64Rec(math.Float64frombits(bits))})
+		g.emit(Ev{"op": "FromFloat32", "f": f32Rec(math.Float32frombits(uint32(bits>>32) | 1))})
+	})
+	// big.Float values at the overflow threshold and at the flush threshold of the decimal range: the largest coefficient
+	// plus 0.4 / 0.5 / 0.6 / 1 unit, the smallest subnormal times 0.04 .. 1.5, exact in the binary precision given
+	g.gridRun(4+6, 0.02, func(i int) {
+		var v *big.Int
+		sh := 0
+		if i < 4 {
+			v = new(big.Int).Add(new(big.Int).Mul(cMax, big.NewInt(10)), big.NewInt(int64([]int{4, 5, 6, 10}[i])))
+			v.Mul(v, pow10(eMax-1))
+		} else {
+			// k/100 * 10^-6176 = k * 2^s / (10^6178 * 2^s): use the exactly representable k * 2^-20520 scaled
+			v = big.NewInt(int64([]int{4, 9, 10, 50, 99, 150}[i-4]))
+			sh = 1
+		}
+		f := new(big.Float).SetPrec(uint(v.BitLen() + 8)).SetInt(v)
+		if sh == 1 {
+			// divide by 10^6178 with 400 bits: the quotient is within 2^-399 of k * 10^-6178, far from every threshold used here
+			f = new(big.Float).SetPrec(400).Quo(new(big.Float).SetPrec(400).SetInt(v), new(big.Float).SetPrec(21000).SetInt(pow10(6178)))
+		}
+		if g.r.Intn(2) == 0 {
+			f.Neg(f)
+		}
+		g.emit(Ev{"op": "FromFloat", "f": bigFloatRec(f)})
 	})
 	// infinities through Float with every kind of receiver (nil, precision 0, a set precision)
 	g.gridRun(2*4, 0.01, func(i int) {
